@@ -42,6 +42,7 @@ fn main() {
         "replay" => std::process::exit(driver::replay_main(&args[2..])),
         "one" => std::process::exit(driver::one_main(&args[2..])),
         "selftest" => std::process::exit(driver::selftest_main(&args[2..])),
+        "stats" => std::process::exit(driver::stats_main(&args[2..])),
         _ => usage(),
     }
 }
